@@ -48,6 +48,7 @@ func (s *Sim) opConnect(op *Op) {
 	sl.ownQ2 = map[uint16]bool{}
 	sl.RecvMax, sl.TAM, sl.MPS, sl.RPI0 = 0, 0, 0, false
 	sl.ExpectClose = false
+	sl.faulted = false
 
 	p := &rc.Packet{Type: rc.CONNECT, ProtoLevel: op.Ver, ProtoName: "MQTT", ClientID: sl.ClientID, KeepAlive: op.KeepAlive}
 	if op.Ver == 3 {
@@ -231,6 +232,7 @@ func (s *Sim) opSubscribe(op *Op) {
 				continue
 			}
 			if rm.ExpAt > 0 && m.Now > rm.ExpAt && s.expiredSeenByHousekeeping(rm) {
+				m.count("retained_expired_model")
 				continue
 			}
 			q := minb(minb(rm.QoS, g.sub.QoS), m.maxQoS())
@@ -238,7 +240,14 @@ func (s *Sim) opSubscribe(op *Op) {
 			if g.sub.ID > 0 {
 				ids = []int{g.sub.ID}
 			}
-			s.owe(sl.Sess, rm, []variant{{QoS: q, SubIDs: ids}}, []bool{true}, true, "C05/retained-not-sent", map[string]string{"rh": fmt.Sprint(g.sub.RH), "shape": filterShape(g.sub.Filter)})
+			re := s.owe(sl.Sess, rm, []variant{{QoS: q, SubIDs: ids}}, []bool{true}, true, "C05/retained-not-sent", map[string]string{"rh": fmt.Sprint(g.sub.RH), "shape": filterShape(g.sub.Filter)})
+			if re != nil && rm.ExpAt > 0 && m.Now > rm.ExpAt {
+				// past its expiry but no housekeeping run has seen it yet: delivery is neither required nor forbidden
+				re.Optional = true
+				if re.Out != nil {
+					sl.Sess.removeOut(re.Out)
+				}
+			}
 			m.count("retained_expected")
 		}
 	}
@@ -418,6 +427,9 @@ func (s *Sim) refusedPublish(sl *Slot, msg *Msg, pid uint16, ackKind byte, code 
 // route performs retention and computes who is owed the message.
 func (s *Sim) route(msg *Msg) {
 	m := s.M
+	if s.inl != nil && !msg.Inline {
+		s.expectInline(msg, s.inlineCount(), false)
+	}
 	if msg.Retain && s.Cfg.RetainAvailable {
 		if msg.Empty {
 			delete(m.Retained, msg.Topic)
